@@ -126,24 +126,36 @@ class BorrowedResources(BaseResources[T]):
         # do not postpone if we can resume immediately
         if not self._resources._available >= self._debits:
             await (self._resources._available >= self._debits)
-        await self._resources.__remove_resources__(self._debits)
-        await self.__insert_resources__(self._debits)
+        try:
+            await self._resources.__remove_resources__(self._debits)
+            await self.__insert_resources__(self._debits)
+        except BaseException:
+            # we were interrupted after taking the resources but cannot be exited
+            # give back whatever we hold by now
+            self.__release_nowait__(self._available.value)
+            raise
         return self
 
     async def __aexit__(self, exc_type, exc_val, exc_tb):
         if exc_type is GeneratorExit:
             # we are killed forcefully and cannot perform async operations
-            # dispatch a new activity to release our resources eventually
-            __USIM_STATE__.loop.schedule(
-                self.__remove_resources__(self._debits)
-            )
-            __USIM_STATE__.loop.schedule(
-                self._resources.__insert_resources__(self._debits)
-            )
+            self.__release_nowait__(self._debits)
         else:
-            await self.__remove_resources__(self._debits)
+            try:
+                await self.__remove_resources__(self._debits)
+            except BaseException:
+                # interrupted after clearing our resources but before returning them
+                self.__release_nowait__(self._zero)
+                raise
             await self._resources.__insert_resources__(self._debits)
             # TODO: forcefully kill off anyone holding our resources?
+
+    def __release_nowait__(self, held: ResourceLevels):
+        """Dispatch new activities to release our resources eventually"""
+        __USIM_STATE__.loop.schedule(self.__remove_resources__(held))
+        __USIM_STATE__.loop.schedule(
+            self._resources.__insert_resources__(self._debits)
+        )
 
     def borrow(self, **amounts: T) -> 'BorrowedResources[T]':
         borrowing = super().borrow(**amounts)
